@@ -154,3 +154,9 @@ def merge_counts(dst, src):
     for k, v in src.items():
         dst[k] = dst.get(k, 0) + v
     return dst
+
+
+class Unsimulated(BaseException):
+    """The code under test used a facility the simulator does not model (e.g. pathlib, mkstemp,
+    socket.makefile).  The harness cannot judge such an implementation: this is reported as a
+    harness error (exit 2), never as a VIOLATION."""
